@@ -107,7 +107,8 @@ def gen_case(rng, tier="quick"):
                                               "open_params",
                                               "guess_parameters",
                                               "td_interleaved",
-                                              "param_system_two_dt"]),
+                                              "param_system_two_dt",
+                                              "bath_dynamics"]),
                         rng.randrange(3), rng.randrange(1, 4)])
             continue
         if k == "new_corr":
@@ -963,6 +964,56 @@ def _run_case(case, dec, pristine):
                     run(psys2, d_other)
                     got = run(psys2, d_now)
                     want = run(oqupy.ParameterizedSystem(hamp), d_now)
+                elif what == "bath_dynamics":
+                    # one TwoTimeBathCorrelations object answers a series of
+                    # questions; it extends its table of system correlations
+                    # as needed, and each answer must be the one a fresh
+                    # object gives
+                    need_bath()
+                    # (bath dynamics need a spectral density and a
+                    # temperature: not defined for CustomCorrelations)
+                    cands = [x for x in baths if x["kind"] != "customcorr"] or \
+                        [{"kind": "powerlaw", "coupling": "z", "vals": {
+                            "alpha": 0.2, "zeta": 1.0, "cutoff": 3.0,
+                            "cutoff_type": "exponential",
+                            "temperature": 0.5}}]
+                    b = cands[0]
+                    tol = 1e-8
+                    tp = oqupy.TempoParameters(dt=0.1, epsrel=EPSREL, dkmax=3)
+
+                    def mk():
+                        fb = fresh_bath(b)
+                        pt = oqupy.pt_tempo_compute(
+                            fb, 0.0, 0.65, tp, progress_type="silent")
+                        return oqupy.bath_dynamics.TwoTimeBathCorrelations(
+                            oqupy.System(0.5 * o["x"] + 0.3 * o["z"]), fb, pt,
+                            initial_state=np.array(RHO0))
+                    # few distinct frequencies and times, so that successive
+                    # questions agree in some arguments and differ in others
+                    questions = [("occ", 1.2, False), ("occ", 0.5, True),
+                                 ("occ", 1.2, True)]
+                    for f1, f2 in ((1.0, None), (1.0, 1.5), (1.5, 1.0)):
+                        for t1, t2 in ((0.2, 0.6), (0.4, 0.6), (0.2, None),
+                                       (0.6, None), (0.2, 0.4)):
+                            for dg in ((1, 0), (0, 1), (1, 1)):
+                                questions.append(("corr", f1, t1, f2, t2, dg))
+                    nq = len(questions)
+                    def ask(t, q):
+                        if q[0] == "corr":
+                            return np.array([t.correlation(
+                                q[1], q[2], freq_2=q[3], time_2=q[4],
+                                dagg=q[5], progress_type="silent")])
+                        return np.array(t.occupation(
+                            q[1], change_only=q[2],
+                            progress_type="silent")[1])
+                    ttbc = mk_shared("ttbc:%r" % sorted(b["vals"].items()),
+                                     mk)
+                    h = 7 * dti + 3 * steps + 11 * len(shared_objs) \
+                        + 5 * stats["computations"]
+                    ask(ttbc, questions[(h * 13 + 5) % nq])
+                    ask(ttbc, questions[(h * 7 + 1) % nq])
+                    q_now = questions[(h * 5 + 2) % nq]
+                    got, want = ask(ttbc, q_now), ask(mk(), q_now)
                 elif what == "td_interleaved":
                     # two computations built from one time-dependent system
                     # are alive at the same time and advance alternately
